@@ -6,7 +6,7 @@
 (*   rbal, col : [Rewards -> Num] ; flows : Seq([id, creator, asset, funded, claimed, ...])      *)
 (*   gw : Num ; aw : [Users -> Num] ; epoch ; snapshot : BOOLEAN ; share : [Users -> Num]        *)
 (* Rules relate the observation before (s) and after (t) one call.                               *)
-EXTENDS Dec, Sequences, FiniteSets, TLC
+EXTENDS Emission, FiniteSets, TLC
 
 CONSTANTS Users, Rewards
 
@@ -112,18 +112,6 @@ ClaimChecks(s, t, u, quoted, quoteOk, lastClaimEpoch) ==
         lastClaimEpoch = s.epoch => \A a \in Rewards : t.rw[u][a] = s.rw[u][a]>>,
      <<"C11.claim.positions-untouched", OthersSame(s, t, {}) /\ t.lpbal = s.lpbal>> >>
 
-\* ----- C13: what one epoch of one flow emits ------------------------------------------------------
-\* A flow f (as read after the claim) carries its expansion history  hist : Seq([e, amt, end])  (from epoch e on the flow
-\* holds amt tokens and ends at end; ascending in e) and its emission ledger  em : Seq([e, x])  (x tokens emitted up to and
-\* including epoch e).  The emission of epoch e is what is left of the flow at e spread evenly over the epochs left:
-\*   emission(e) = floor( (amount at e - emitted up to e-1) / (end at e - e) )
-AtEpoch(f, e) == LET c == SelectSeq(f.hist, LAMBDA h : h.e <= e) IN
-                 IF c = <<>> THEN [amt |-> f.base, end |-> f.end] ELSE [amt |-> c[Len(c)].amt, end |-> c[Len(c)].end]
-FinalEnd(f) == IF f.hist = <<>> THEN f.end ELSE f.hist[Len(f.hist)].end
-EmittedUpTo(f, e) == LET c == SelectSeq(f.em, LAMBDA h : h.e = e) IN IF c = <<>> THEN Zero ELSE c[1].x
-Emission(f, e) ==
-  LET h == AtEpoch(f, e)  before == EmittedUpTo(f, e - 1) IN
-  IF h.end <= e \/ h.amt \preceq before THEN Zero ELSE (h.amt -- before) // N(h.end - e)
 \* the (flow, epoch) pairs a claim made in epoch cur can pay for when the claimer's last claim was in epoch lastClaim
 \* (-1: never): the epochs after the last claim in which the flow runs
 Slots(flows, a, lastClaim, cur) ==
